@@ -159,7 +159,11 @@ def replay(work, path):
     if not binp:
         print('cannot build bounded driver:', log)
         return 2
-    return subprocess.call([binp, '--replay', path])
+    rc = subprocess.call([binp, '--replay', path])
+    if rc < 0 or rc in (134, 139):
+        print('replay: the process ABORTED (status %d) on this input -- the violation reproduces' % rc)
+        return 1
+    return rc
 
 
 if __name__ == '__main__':
